@@ -1,6 +1,7 @@
 package main
 
 import (
+	"path/filepath"
 	"flag"
 	"fmt"
 	"os"
@@ -46,6 +47,60 @@ func main() {
 			os.Exit(2)
 		}
 		os.Exit(runCheck(eng, checkOpts{prop: pos[0], tier: *tier, only: *only, caseFilter: *caseF}, t0))
+	case "replay":
+		// govc replay <path of a replay test file written by a failing check>:
+		// runs it again against the current tree (exit 1 if the failure reproduces)
+		if len(pos) == 0 {
+			fmt.Fprintln(os.Stderr, "govc replay <path>")
+			os.Exit(2)
+		}
+		data, err := os.ReadFile(pos[0])
+		if err != nil {
+			fmt.Fprintln(os.Stderr, "govc replay:", err)
+			os.Exit(2)
+		}
+		text := string(data)
+		if !strings.Contains(text, "func TestVerifReplay") {
+			// no input could be built for this obligation: the file carries the verifier's output only
+			fmt.Print(text)
+			fmt.Println("govc replay: this file has no executable test (no-failing-input-found)")
+			os.Exit(0)
+		}
+		pkgPath := ""
+		for _, l := range strings.Split(text, "\n") {
+			if strings.HasPrefix(l, "package ") {
+				name := strings.TrimSpace(strings.TrimPrefix(l, "package "))
+				for _, p := range eng.pkgs {
+					if p.Name == name || p.Name+"_test" == name {
+						pkgPath = p.PkgPath
+					}
+				}
+				break
+			}
+		}
+		// the contract line names the file the contract lives in: prefer its package
+		for _, l := range strings.Split(text, "\n") {
+			if i := strings.Index(l, "// contract "); i >= 0 {
+				if j := strings.Index(l, "(/"); j >= 0 {
+					file := strings.TrimSuffix(strings.SplitN(l[j+1:], ":", 2)[0], ")")
+					for _, p := range eng.pkgs {
+						for _, gf := range p.GoFiles {
+							if filepath.Dir(gf) == filepath.Dir(file) {
+								pkgPath = p.PkgPath
+							}
+						}
+					}
+				}
+			}
+		}
+		failed, out := eng.runReplayFile(pkgPath, pos[0])
+		fmt.Print(out)
+		if failed {
+			fmt.Println("govc replay: the failure reproduces on the current tree")
+			os.Exit(1)
+		}
+		fmt.Println("govc replay: the test does not fail on the current tree")
+		os.Exit(0)
 	case "dump":
 
 		var cts []*Contract
